@@ -801,7 +801,7 @@ def scan_for_metadata(a: ast.AST, callback: Callable[[ast.arg], None]):
     metadata_finder().visit(a)
 
 
-g_legal_capture_types = (str, int, float, bool, complex, str, bytes, ModuleType)
+g_legal_capture_types = (str, int, float, bool, complex, str, bytes)
 
 
 def check_ast(a: ast.AST):
